@@ -30,6 +30,13 @@ class Boom(Exception):
     pass
 
 
+class BaseBoom(BaseException):
+    pass
+
+
+EXIT_EXCS = [Boom, KeyboardInterrupt, BaseBoom, GeneratorExit, SystemExit]
+
+
 def gen_case(rng, params):
     n_handles, depth, ops, closed = 1, 0, [], False
     for _ in range(rng.randint(3, 25)):
@@ -101,10 +108,13 @@ def _run(line):
                 else:
                     cm, exceptional = frames.pop()
                     if exceptional:
+                        exc_t = EXIT_EXCS[rot % len(EXIT_EXCS)]
+                        exc = exc_t("body")
                         try:
-                            cm.__exit__(Boom, Boom("body"), None)
-                        except Boom:
-                            pass
+                            cm.__exit__(exc_t, exc, None)
+                        except BaseException as e:
+                            if e is not exc:
+                                raise
                     else:
                         cm.__exit__(None, None, None)
                     res = "ok"
